@@ -40,14 +40,14 @@ WB_ASSUMED = [('src/parallel.rs', 'impl TmpNodesReader', 'to_insert'), ('src/par
               ('src/parallel.rs', "impl<'a, DE: BytesEncode<'a>> TmpNodes<DE>", 'into_bytes_reader')]
 FROZEN_ASSUMED = [('src/parallel.rs', "impl<'t, D: Distance> ImmutableLeafs<'t, D>", 'get'), ('src/parallel.rs', "impl<'t, D: Distance> ImmutableTrees<'t, D>", 'get')]
 
-BUILD_CHAIN = {'trees_new': ['ImmutableTrees::new', 'ImmutableTrees::sub_tree_from_id', 'ImmutableTrees::empty', 'NodeId::unwrap_tree'], 'insert_glue': ['Writer::insert_items_in_tree'], 'insert_driver': ['Writer::insert_items_in_current_trees'], 'iict_lib': None,
+BUILD_CHAIN = {'tmp_nodes': ['TmpNodesC::put', 'TmpNodesC::remap', 'TmpNodesC::remove'], 'trees_new': ['ImmutableTrees::new', 'ImmutableTrees::sub_tree_from_id', 'ImmutableTrees::empty', 'NodeId::unwrap_tree'], 'insert_glue': ['Writer::insert_items_in_tree'], 'insert_driver': ['Writer::insert_items_in_current_trees'], 'iict_lib': None,
                'incr_driver': ['Writer::incremental_index_large_descendants'], 'incr_lib': None,
                'build': ['Writer::build', 'meta_roots_'], 'build_lib': None, 'inv_lib': None,
                'builder_opts': ['BuildOption::default', 'Writer::builder', 'ArroyBuilder::n_trees', 'ArroyBuilder::split_after', 'ArroyBuilder::available_memory', 'ArroyBuilder::build']}
 TMP = "impl<'a, DE: BytesEncode<'a>> TmpNodes<DE>"
 BUILD_ASSUMED = [('src/writer.rs', 'impl<D: Distance> Writer<D>', 'pre_process_items'),
                  ('src/writer.rs', 'impl<D: Distance> Writer<D>', 'used_tree_node'),
-                 ('src/parallel.rs', TMP, 'new'), ('src/parallel.rs', TMP, 'new_in'), ('src/parallel.rs', TMP, 'remap'), ('src/parallel.rs', TMP, 'put'), ('src/parallel.rs', TMP, 'remove')]
+                 ('src/parallel.rs', TMP, 'new'), ('src/parallel.rs', TMP, 'new_in')]
 BUILD_TRUSTED = [
     'A5 (build-level, not proved): while the id generator of a build is alive, every tree id of the index in the database was present when the generator was created or was issued by it; hence an id it returns is not a tree key of the current view (ConcurrentNodeIds::next_v_) nor of the view a staging area was created under (TmpNodes::taken, rules R12/R12b/R14); axiom_generator_covers ties this to the set passed to ConcurrentNodeIds::new',
     'A6: rule R11 renders the rayon map of insert_items_in_tree as the sequential loop over the same closure body (proved: one result per root, each satisfying the PROVED contract of insert_items_in_file for a fresh staging area; errors propagate); what the interleaving adds is assumed as axiom_distinct_staging: ids handed to different staging areas during one call are different (the sequential restatement of C13). pre_process_items only rewrites item leaves of the index in place (no key added or removed, encoded length kept); used_tree_node (A1) reports every tree id of the index (assumed, drift-guarded). ImmutableTrees::new / sub_tree_from_id / empty are PROVED in unit trees_new (every tree node of the index / exactly the subtree, with the database values; the (len, ptr) pairs are abstracted as the mapped bytes, the unsafe slice reconstruction in ImmutableTrees::get stays assumed); callers additionally use a ghost-only name db_has for the tree ids the database held when the view was frozen',
